@@ -147,7 +147,16 @@ func (s *DeadCodeServiceImpl) analyzeFile(ctx context.Context, filePath string, 
 	totalFindings := 0
 	affectedFunctions := 0
 
-	for functionName, cfg := range cfgs {
+	// Iterate functions in a stable order (map iteration order is random)
+	functionNames := make([]string, 0, len(cfgs))
+	for functionName := range cfgs {
+		functionNames = append(functionNames, functionName)
+	}
+	sort.Strings(functionNames)
+
+	for _, functionName := range functionNames {
+		cfg := cfgs[functionName]
+
 		// Skip the main module CFG for now, focus on functions
 		if functionName == "__main__" {
 			continue
@@ -298,8 +307,12 @@ func (s *DeadCodeServiceImpl) sortFiles(files []domain.FileDeadCode, sortBy doma
 		case domain.DeadCodeSortByFile:
 			return files[i].FilePath < files[j].FilePath
 		case domain.DeadCodeSortBySeverity:
-			// Sort by highest severity findings first
-			return s.getHighestSeverityLevel(files[i]) > s.getHighestSeverityLevel(files[j])
+			// Sort by highest severity findings first, file path as tie-breaker
+			levelI, levelJ := s.getHighestSeverityLevel(files[i]), s.getHighestSeverityLevel(files[j])
+			if levelI != levelJ {
+				return levelI > levelJ
+			}
+			return files[i].FilePath < files[j].FilePath
 		default:
 			return files[i].FilePath < files[j].FilePath
 		}
